@@ -109,7 +109,7 @@ func main() {
 							if id.Name == "atomic" && se.Sel.Name != "AddUint64" && se.Sel.Name != "LoadUint64" {
 								// R1
 								edits = append(edits, edit{off(se.Pos()), off(se.End()), "vAtomic" + se.Sel.Name})
-								edits = append(edits, edit{off(x.Lparen) + 1, off(x.Lparen) + 1, quote(norm(text(x))) + ", "})
+								edits = append(edits, edit{off(x.Lparen) + 1, off(x.Lparen) + 1, quote(fn+":"+norm(text(x))) + ", "})
 							}
 							if id.Name == "gopool" && se.Sel.Name == "Go" {
 								edits = append(edits, edit{off(se.Pos()), off(se.End()), "vGo"}) // R5
